@@ -19,6 +19,7 @@ env = {k: v for k, v in os.environ.items() if k not in ("SRLIFE_VERIF",)}
 env["PYTHONPATH"] = wt
 with tempfile.TemporaryDirectory() as d:
     out = os.path.join(d, "j.xml")
+    env["TMPDIR"] = d
     subprocess.run(["/venv/bin/python", "-m", "pytest", "-q", "-p", "no:cacheprovider", "--timeout=900",
                     "--continue-on-collection-errors", "--junitxml=" + out], cwd=wt, env=env,
                    stdout=subprocess.DEVNULL, stderr=subprocess.DEVNULL)
